@@ -8,12 +8,22 @@ from . import models
 from .models import model, some, none, val_eq_dispatch, SeqIter, seq_of, clone_deep, COLLECTORS
 
 
+def hash_order(ex, seq):
+    """iteration order of the hash-based collections: insertion order by default; a harness may ask for another fixed order
+    (`reverse`, `rotate`) to compare the results of an order-independent computation"""
+    mode = ex.h.notes.get('hash_order') if ex is not None and hasattr(ex, 'h') else None
+    seq = list(seq)
+    if mode == 'reverse': seq.reverse()
+    elif mode == 'rotate' and len(seq) > 1: seq = seq[1:] + seq[:1]
+    return seq
+
+
 class MapV:
     rust_type = 'HashMap'
 
     def __init__(self, entries=None, kind='HashMap'): self.entries = entries or []; self.kind = kind
     def clone(self): return MapV([[clone_val(k), clone_val(v)] for k, v in self.entries], self.kind)
-    def iter_items(self, ex): return [Struct('()', [Ref(e, 0), Ref(e, 1)]) for e in self.entries]
+    def iter_items(self, ex): return hash_order(ex, [Struct('()', [Ref(e, 0), Ref(e, 1)]) for e in self.entries])
     def __repr__(self): return '%s%r' % (self.kind, self.entries)
 
     def find(self, ex, key):
@@ -38,7 +48,7 @@ class SetV:
 
     def __init__(self, items=None, kind='HashSet'): self.items = items or []; self.kind = kind
     def clone(self): return SetV([clone_val(k) for k in self.items], self.kind)
-    def iter_items(self, ex): return [Ref(self.items, i) for i in range(len(self.items))]
+    def iter_items(self, ex): return hash_order(ex, [Ref(self.items, i) for i in range(len(self.items))])
     def __repr__(self): return '%s%r' % (self.kind, self.items)
 
     def index(self, ex, key):
@@ -132,15 +142,15 @@ def map_iter(ex, args, m_=None): return SeqIter(as_map(args[0]).iter_items(ex))
 
 
 @model(r'<' + MAP + r'<.*> as IntoIterator>::into_iter')
-def map_into_iter(ex, args): return SeqIter([Struct('()', [k, v]) for k, v in as_map(args[0]).entries])
+def map_into_iter(ex, args): return SeqIter(hash_order(ex, [Struct('()', [k, v]) for k, v in as_map(args[0]).entries]))
 
 
 @model(MAP + r'::<.*>::(keys|values|values_mut|into_keys|into_values)')
 def map_keys(ex, args, m_):
     m = as_map(args[0]); k = m_.group(1)
-    if k == 'keys': return SeqIter([Ref(e, 0) for e in m.entries])
-    if k in ('values', 'values_mut'): return SeqIter([Ref(e, 1) for e in m.entries])
-    return SeqIter([e[0] if k == 'into_keys' else e[1] for e in m.entries])
+    if k == 'keys': return SeqIter(hash_order(ex, [Ref(e, 0) for e in m.entries]))
+    if k in ('values', 'values_mut'): return SeqIter(hash_order(ex, [Ref(e, 1) for e in m.entries]))
+    return SeqIter(hash_order(ex, [e[0] if k == 'into_keys' else e[1] for e in m.entries]))
 
 
 @model(MAP + r'::<.*>::clear')
@@ -246,9 +256,9 @@ def set_into_iter(ex, args):
 def set_algebra(ex, args, m_):
     a = as_set(args[0]); b = as_set(args[1]); k = m_.group(1)
     if hasattr(a, 'algebra'): return a.algebra(ex, k, b)
-    if k == 'intersection': return SeqIter([Ref(a.items, i) for i, x in enumerate(a.items) if b.index(ex, x) is not None])
-    if k == 'difference': return SeqIter([Ref(a.items, i) for i, x in enumerate(a.items) if b.index(ex, x) is None])
-    return SeqIter([Ref(a.items, i) for i in range(len(a.items))] + [Ref(b.items, i) for i, x in enumerate(b.items) if a.index(ex, x) is None])
+    if k == 'intersection': return SeqIter(hash_order(ex, [Ref(a.items, i) for i, x in enumerate(a.items) if b.index(ex, x) is not None]))
+    if k == 'difference': return SeqIter(hash_order(ex, [Ref(a.items, i) for i, x in enumerate(a.items) if b.index(ex, x) is None]))
+    return SeqIter(hash_order(ex, [Ref(a.items, i) for i in range(len(a.items))] + [Ref(b.items, i) for i, x in enumerate(b.items) if a.index(ex, x) is None]))
 
 
 @model(SET + r'::<.*>::(is_subset|is_superset|is_disjoint)')
